@@ -184,17 +184,28 @@ class SReal:
     def __abs__(s):
         return SReal(z3.If(s.t >= 0, s.t, -s.t))
 
+    @staticmethod
+    def _inf(o):
+        """+1 / -1 when o is +-infinity (every real compares strictly inside), else 0"""
+        if isinstance(o, (float, numpy.floating)) and numpy.isinf(o):
+            return 1 if o > 0 else -1
+        return 0
+
     def __lt__(s, o):
-        return SBool(s.t < lift(o))
+        i = SReal._inf(o)
+        return SBool(z3.BoolVal(i > 0)) if i else SBool(s.t < lift(o))
 
     def __le__(s, o):
-        return SBool(s.t <= lift(o))
+        i = SReal._inf(o)
+        return SBool(z3.BoolVal(i > 0)) if i else SBool(s.t <= lift(o))
 
     def __gt__(s, o):
-        return SBool(s.t > lift(o))
+        i = SReal._inf(o)
+        return SBool(z3.BoolVal(i < 0)) if i else SBool(s.t > lift(o))
 
     def __ge__(s, o):
-        return SBool(s.t >= lift(o))
+        i = SReal._inf(o)
+        return SBool(z3.BoolVal(i < 0)) if i else SBool(s.t >= lift(o))
 
     def __eq__(s, o):
         try:
@@ -229,6 +240,21 @@ class SReal:
 
     def __repr__(s):
         return f"SReal({s.t})"
+
+
+class SRealU(SReal):
+    """SReal that also answers numpy's finiteness ufuncs when passed directly (not inside an array): a real number is finite.
+    Only used where the code under test calls numpy.isfinite / numpy.isneginf on a scalar result."""
+
+    __slots__ = ()
+
+    def __array_ufunc__(self, ufunc, method, *inputs, **kw):
+        if method == "__call__" and len(inputs) == 1 and inputs[0] is self:
+            if ufunc is numpy.isfinite:
+                return True
+            if ufunc in (numpy.isneginf, numpy.isposinf, numpy.isinf, numpy.isnan):
+                return False
+        return NotImplemented
 
 
 def real(name):
